@@ -545,7 +545,15 @@ pub fn run(args: &Args) -> Report {
     // committees in which only some validators are leader-eligible: eligibility must not influence any verdict
     let mixed: Vec<(Vec<u64>, u32)> = vec![(vec![1, 1, 1, 1], 0b0001), (vec![2, 2, 1, 1], 0b0100), (vec![3, 1, 1], 0b110), (vec![1; 6], 0b000011), (vec![1, 2], 0b10)];
     let outs = par_map(cs.len() + mixed.len(), |i| {
-        let c = if i < cs.len() { util::committee(args.seed, &cs[i]) } else { let (w, l) = &mixed[i - cs.len()]; util::committee_elig(args.seed, w, 0, 0, Default::default(), *l) };
+        let c = if i < cs.len() { util::committee(args.seed, &cs[i]) } else {
+            let (w, l) = &mixed[i - cs.len()];
+            let mut c = util::committee_elig(args.seed, w, 0, 0, Default::default(), *l);
+            // ... and some of them live in a later epoch (every message then carries epoch 3)
+            if (i - cs.len()) % 2 == 1 {
+                c.epoch = validator::EpochNumber(3);
+            }
+            c
+        };
         check_committee(&c, args.tier)
     });
     let (mut evals, mut acc, mut rej, mut distinct) = (0, 0, 0, 0);
